@@ -332,6 +332,60 @@ func runC03(c *runCtx) {
 			}
 		}
 	}
+	// every combination of the optional clauses of a query, in every position a query can stand in
+	{
+		idn := func(n string) *GExpr { return &GExpr{K: "ident", Name: n} }
+		cmp := func(a string, n string) *GExpr {
+			return &GExpr{K: "bin", Op: ">", A: []*GExpr{idn(a), {K: "num", Name: n}}}
+		}
+		for mask := 0; mask < 128; mask++ {
+			mk := func(tbl string) *GSelect {
+				q := &GSelect{Cols: []GCol{{E: idn("a")}}, From: []GFrom{{Table: tbl}}, Limit: -1, Offset: -1}
+				q.Distinct = mask&1 != 0
+				if mask&2 != 0 {
+					q.Where = cmp("b", "1")
+				}
+				if mask&4 != 0 {
+					q.GroupBy = []*GExpr{idn("a"), idn("c")}
+				}
+				if mask&8 != 0 {
+					q.Having = cmp("a", "2")
+				}
+				if mask&16 != 0 {
+					q.OrderBy = []GOrder{{E: idn("a"), Desc: true}, {E: idn("c"), Nulls: "LAST"}}
+				}
+				if mask&32 != 0 {
+					q.Limit = 5
+				}
+				if mask&64 != 0 {
+					q.Offset = 3
+				}
+				return q
+			}
+			for _, plain := range []bool{true, false} {
+				g.reset()
+				g.Plain = plain
+				top := mk("t")
+				check(top, g.renderSelect(top), "clause-combination")
+				inner := mk("u")
+				inner.OrderBy, inner.Limit, inner.Offset = nil, -1, -1
+				if inner.Distinct || inner.Where != nil || inner.GroupBy != nil || inner.Having != nil {
+					// as a derived table, a scalar sub-query, an IN sub-query, a CTE body and a set-operation arm
+					derived := &GSelect{Cols: []GCol{{E: idn("a")}}, From: []GFrom{{Sub: inner, Alias: "d"}}, Limit: -1, Offset: -1}
+					check(derived, g.renderSelect(derived), "clause-combination:derived")
+					scalar := &GSelect{Cols: []GCol{{E: &GExpr{K: "subq", Sub: inner}}}, From: []GFrom{{Table: "t"}}, Limit: -1, Offset: -1}
+					check(scalar, g.renderSelect(scalar), "clause-combination:scalar")
+					insub := &GSelect{Cols: []GCol{{E: idn("a")}}, From: []GFrom{{Table: "t"}}, Where: &GExpr{K: "insub", A: []*GExpr{idn("a")}, Sub: inner}, Limit: -1, Offset: -1}
+					check(insub, g.renderSelect(insub), "clause-combination:in-subquery")
+					cte := &GSelect{Cols: []GCol{{E: idn("a")}}, From: []GFrom{{Table: "c"}}, Limit: -1, Offset: -1, CTEs: []GCTE{{Name: "c", Body: inner}}}
+					check(cte, g.renderSelect(cte), "clause-combination:cte")
+					arm := &GSelect{SetOp: "UNION", SetLeft: mk("t"), SetRight: inner, Limit: -1, Offset: -1}
+					arm.SetLeft.OrderBy, arm.SetLeft.Limit, arm.SetLeft.Offset = nil, -1, -1
+					check(arm, g.renderSelect(arm), "clause-combination:set-operation")
+				}
+			}
+		}
+	}
 	g.Plain = false
 	// expression ladder: the Lean model (driver op expr) against parseExpression on EOF-terminated token lists
 	drv := c.driver()
